@@ -19,7 +19,8 @@ TECHNIQUE = 'bounded exhaustive enumeration of mention programs x lag/lead optio
 RULE = ('mentions = 3 names x {variable, {parameter}, <error>} x offsets {none, -2, +2, label}; LHS = 3 names x {none, +1}; programs: 1 equation x 1..2 RHS mentions, '
         '2 equations x 1 RHS mention (quick) plus 3 equations x 1 RHS mention over a reduced mention set and 2 equations x 2 RHS mentions over a reduced set (thorough); '
         'plus 39 name spellings one case-change/affix away from a keyword or helper; option lattice lags, leads in {None,0,1,3} x min_lags, min_leads in {0,1,3}. non-trivial = accepted program (classification compared) or rejection compared'
-        ' Name shapes include soft keywords and underscore-initial names; call spellings with a blank before the bracket; 13 raw scripts with double definitions the generator cannot spell (exp/np.exp, several targets).')
+        ' Name shapes include soft keywords and underscore-initial names; call spellings with a blank before the bracket; 13 raw scripts with double definitions the generator cannot spell (exp/np.exp, several targets).'
+        " 4 hand-classified scripts with comparison operators containing '=', each also after a round trip of its symbols through the tabular form; helper names ending in a digit.")
 ASSUMPTIONS = [
     'when a script contains both a kind clash and a double definition either error class is accepted',
     'explicit lags=/leads= replace the derived value outright (min_lags=/min_leads= only raise a derived value), as the docstring says ("impose")',
@@ -41,8 +42,8 @@ def spell(name, kind, off):
     return '%s[%d]' % (base, off)
 
 
-SPELLINGS = [None, 'space-before-bracket', 'comment-with-terms', 'comment-lines', 'blank-inside-brackets'] + ['function-calls:%d' % k for k in range(0, 9, 2)] + ['function-calls-blank:1', 'function-calls-blank:6']
-FUNCTION_NAMES = ['f', 'g1', 'F', 'fn', 'np.f', 'h_', 'np.sub.f2', 'exp', 'Log']  # names of functions are never variables, however short
+SPELLINGS = [None, 'space-before-bracket', 'comment-with-terms', 'comment-lines', 'blank-inside-brackets'] + ['function-calls:%d' % k for k in range(0, 13, 2)] + ['function-calls:9', 'function-calls-blank:1', 'function-calls-blank:6']
+FUNCTION_NAMES = ['f', 'g1', 'F', 'fn', 'np.f', 'h_', 'np.sub.f2', 'exp', 'Log', 'log10', 'atan2', 'np.log2', 'expm1']  # names of functions are never variables, however short
 
 
 def script_of(prog, spelling=None):
@@ -282,6 +283,35 @@ RAW_DOUBLE_DEFINITIONS = [
 RAW_SAME_DEFINITIONS = ['Y = X + 1\nY = X  +  1', 'Y = exp( X )\nY = exp(X)  # again', '(A, B) = (X, Z)\n(A, B) = (X,  Z)']
 
 
+# scripts with comparison operators that contain '=' (the statement is split at its FIRST '='): expected classes written by hand
+RAW_CLASSIFIED = [
+    ('Y = (X >= Z) * W[-1]', ['Y'], ['X', 'Z', 'W'], [], [], 1, 0),
+    ('Y = (X <= {a}) + (Z[1] == <e>)', ['Y'], ['X', 'Z'], ['a'], ['e'], 0, 1),
+    ('Y = (X != Z[-2]) * 2\nZ = (Y >= X) + W', ['Y', 'Z'], ['X', 'W'], [], [], 2, 0),
+    ('Y = X if Z == 1 else W[2]', ['Y'], ['X', 'Z', 'W'], [], [], 0, 2),
+]
+
+
+@robust()
+def run_raw_classified_case(case):
+    script, endo, exo, par, err, lags, leads = case['script'], case['endo'], case['exo'], case['par'], case['err'], case['lags'], case['leads']
+    out = []
+    try:
+        symbols = fsic.parse_model(script)
+        routes = [('build_model', fsic.build_model(symbols))]
+        # ... and the same symbols after a round trip through the tabular form
+        import fsic.tools as tools
+        routes.append(('table-round-trip', fsic.build_model(tools.dataframe_to_symbols(tools.symbols_to_dataframe(symbols)))))
+    except Exception as e:
+        return [('raw-classified:%s' % type(e).__name__, 'accepted', repr(e)[:120], 'a consistent script is rejected: %r' % script)]
+    for route, M in routes:
+        got = (list(M.ENDOGENOUS), list(M.EXOGENOUS), list(M.PARAMETERS), list(M.ERRORS), int(M.LAGS), int(M.LEADS))
+        if got != (endo, exo, par, err, lags, leads):
+            out.append(('raw-classified:%s' % route, [endo, exo, par, err, lags, leads], list(got), 'variable classes / lag and lead lengths differ: %r' % script))
+            break
+    return out
+
+
 @robust()
 def run_raw_case(case):
     script = case['script']
@@ -307,6 +337,12 @@ def run_block(block, tier, seed):
                 acc.nontrivial += 1
                 for key, exp, obs, what in run_raw_case(case):
                     acc.violation(key, case, exp, obs, what)
+        for script, endo, exo, par, err, lags, leads in RAW_CLASSIFIED:
+            case = {'raw_classified': True, 'script': script, 'endo': endo, 'exo': exo, 'par': par, 'err': err, 'lags': lags, 'leads': leads}
+            acc.evaluations += 1
+            acc.nontrivial += 1
+            for key, exp, obs, what in run_raw_classified_case(case):
+                acc.violation(key, case, exp, obs, what)
     for i, (prog, full) in enumerate(program_space(tier)):
         if i % block['nb'] != block['b']:
             continue
@@ -333,6 +369,8 @@ def run_block(block, tier, seed):
 def run_one(case):
     if case.get('raw'):
         return run_raw_case(case)
+    if case.get('raw_classified'):
+        return run_raw_classified_case(case)
     return run_case(case)[0]
 
 
